@@ -37,7 +37,8 @@ PROPS = 'XsVerif.Props.C17'
 AUDIT = 'XsVerif.Audit.C17'
 LEAN_TARGETS = ['XsVerif.Props.C17', 'drv_c17']
 LEANCHECK = ['XsVerif.Model.NsMapper', 'XsVerif.Lemmas.NsMapper', 'XsVerif.Lemmas.NsStack', 'XsVerif.Lemmas.NsSpec', 'XsVerif.Lemmas.NsInv',
-             'XsVerif.Lemmas.NsCollapse', 'XsVerif.Lemmas.NsEncode', 'XsVerif.Lemmas.NsDenote', 'XsVerif.Props.C17']
+             'XsVerif.Lemmas.NsCollapse', 'XsVerif.Lemmas.NsEncode', 'XsVerif.Lemmas.NsEncodeG', 'XsVerif.Lemmas.NsDenote',
+             'XsVerif.Props.C17']
 RULE = ('a case is (document, user namespace map, xmlns_processing mode, converter, parser) or one mapper operation '
         'script; non-trivial = the document redeclares a prefix in an inner scope, binds two prefixes to one URI, '
         'or sets/unsets a default namespace below the root (documents), resp. the script contains a rebind of a '
@@ -189,6 +190,16 @@ def detect_attr_rule() -> str:
 
 
 ARULE = 'current'
+F10_ON = True
+
+
+def detect_f10() -> bool:
+    """does the tree re-apply the parent's default namespace to a wildcard-matched child name in no namespace
+    (C17-F10, groups.py raw_encode)?  witness of the Lean theorem encoder_f10_counterexample"""
+    sch = L.schema()
+    d = sch.decode('<k:b xmlns="u4" xmlns:k="u2"><w><a xmlns=""/></w></k:b>', validation='lax', preserve_root=True)[0]
+    e = sch.encode(d, validation='lax', preserve_root=True, path='{u2}b')[0]
+    return [x.tag for x in e.iter()][-1] != 'a'
 
 
 # ------------------------------------------------------------------------------------------------
@@ -539,7 +550,8 @@ def eval_doc(ctx: Ctx, case: dict, doc: dict, conv: str, mode: str, data: Any, e
         ctx.failure('encode did not create the converter', case, {'phase': 'encode', 'errors': [str(e)[:200] for e in eerrors[:2]]})
         return None
     return {'item': enc_item, 'tab': tab, 'etrace': etrace, 'enc': None if elem is None else L.canon_elem(elem), 'got': got,
-            'decode_ok': decode_ok, 'errors': [str(e)[:200] for e in eerrors[:3]], 'wild_elems': wild_elems,
+            'decode_ok': decode_ok, 'errors': [str(getattr(e, 'reason', None) or e)[:200] for e in eerrors[:3]],
+            'wild_elems': wild_elems,
             'expected_root': L.qn(*doc['tag'])}
 
 
@@ -557,7 +569,23 @@ def enc_request(case: dict, variant: str, tie: dict) -> dict:
     return {'op': 'encg', 'variant': variant, 'mode': case['mode'], 'item': tie['item'],
             'declared': [[ns, loc] for ns in [''] + L.URIS for loc in L.LOCALS], 'unq': ['y'],
             'ns': tie['etrace']['init']['ns'], 'rev': tie['etrace']['init']['rev'], 'user': case.get('user') or [],
-            'runs': [dict(f, ownTag=(conv == 'jsonml')) for _, f in ENC_RUNS]}
+            'runs': [dict(f, ownTag=(conv == 'jsonml'), f10=(f['f10'] and F10_ON)) for _, f in ENC_RUNS]}
+
+
+def root_lookup_finding(case: dict, tie: dict) -> Optional[str]:
+    """The element to encode is looked up by name with the converter's INITIAL namespaces (schemas.py iter_encode:
+    find(path, namespaces) / root key): when they bind the default namespace to D, a root in no namespace is looked
+    up as {D}root.  D from the user map: C17-F4; D leaked from a child of the root by get_namespaces: C17-F8."""
+    if tie['expected_root'][:1] == '{':
+        return None
+    init_default = dict(map(tuple, tie['etrace']['init']['ns'])).get('')
+    if not init_default:
+        return None
+    user_default = dict(map(tuple, case.get('user') or [])).get('')
+    if user_default:
+        return 'C17-F4' if init_default == user_default else None
+    root_default = dict(map(tuple, tie['item']['xmlns'])).get('')
+    return 'C17-F8' if init_default != root_default else None
 
 
 def pred_tree(obs: list) -> Any:
@@ -594,11 +622,14 @@ def judge_enc(ctx: Ctx, case: dict, tie: dict, m: Optional[dict]) -> None:
                 runs['no8']['obs'][0]['tag'] == tie['expected_root']:
             ctx.known_hit('C17-F8', case)
             ctx.count('known:C17-F8 (encode, root refused)')
-        elif root_cur != tie['expected_root'] and udef and root_cur == '{%s}%s' % (udef, tie['expected_root']) \
-                and not tie['decode_ok']:
-            # C17-F4 (encode side): the user-supplied default namespace is applied to the no-namespace root key
-            ctx.known_hit('C17-F4', case)
-            ctx.count('known:C17-F4 (encode, root refused)')
+        elif root_lookup_finding(case, tie) and root_cur in (tie['expected_root'], '{%s}%s' % (udef, tie['expected_root'])) \
+                and any('data tag does not match XSD element name' in e or 'Unmatched tag' in e for e in tie['errors']):
+            # the root of the document is in no namespace and the initial map binds the default namespace (user map:
+            # C17-F4, leaked from a child: C17-F8): the element to encode is looked up as {D}root while the key
+            # denotes the name in no namespace (or the converter reads the key into D) — the data is refused
+            fid = root_lookup_finding(case, tie)
+            ctx.known_hit(fid, case)
+            ctx.count('known:' + fid + ' (encode, root refused)')
         elif not tie['decode_ok']:
             ctx.count('encode skipped after known decode finding')
         else:
@@ -617,6 +648,19 @@ def judge_enc(ctx: Ctx, case: dict, tie: dict, m: Optional[dict]) -> None:
                 return
             continue
         rcalls.append(c)
+    fid = root_lookup_finding(case, tie)
+    if fid and preds['cur'] != enc and preds['cur'] is not None:
+        d0 = dict(map(tuple, tie['etrace']['init']['ns']))['']
+        looked_up = '{%s}%s' % (d0, tie['expected_root'])
+        if preds['cur'][0] == tie['expected_root'] and (
+                enc == [looked_up] + preds['cur'][1:] or
+                (case['converter'] == 'badgerfish' and enc == [looked_up, [], [preds['cur']]])):
+            # BadgerFish does not refuse the data: the root key does not match the element that was looked up, so it
+            # takes the whole wrapper for the content of that element (badgerfish.py:107-113): the tree the model
+            # predicts appears as the only child of an element {D}root
+            ctx.known_hit(fid, case)
+            ctx.count('known:' + fid + ' (encode, root looked up in the default namespace)')
+            return
     mcalls = [o for o in cur if _is_map_id(tie['item'], o['id'])]
     shape_issue = False
     if tie['wild_elems'] and preds['cur'] != enc:
@@ -1076,9 +1120,11 @@ def merges(ctx: Ctx, drv: Optional[Driver]) -> None:
 
 def run(ctx: Ctx, driver_ok: bool) -> None:
     drv = Driver('drv_c17') if driver_ok else None
-    global ARULE
+    global ARULE, F10_ON
     variant = detect_variant()
     ARULE = detect_attr_rule()
+    F10_ON = detect_f10()
+    ctx.extra['f10_mechanism_detected'] = F10_ON
     ctx.extra['repointing_variant_detected'] = variant
     ctx.extra['setitem_stale'] = setitem_stale()
     ctx.extra['attribute_rule_detected'] = ARULE
@@ -1132,6 +1178,33 @@ def replay_counterexamples(ctx: Ctx) -> None:
         ctx.known_hit('C17-F9', {'xml': '<a xmlns="u1" z="v"/>', 'mode': 'stacked', 'converter': 'default'})
     elif sorted(e.attrib) != ['z']:
         ctx.mismatch('Lean witness encode_decode_names_counterexample does not replay', {'xml': 'F9'}, sorted(e.attrib), ['{u1}z'])
+    # encoder_f10_counterexample (C17-F10): dict converters rename, JsonML refuses the child
+    x10 = '<k:b xmlns="u4" xmlns:k="u2"><w><a xmlns=""/></w></k:b>'
+    d = sch.decode(x10, validation='lax', preserve_root=True)[0]
+    e = sch.encode(d, validation='lax', preserve_root=True, path='{u2}b')[0]
+    tags = [x.tag for x in e.iter()]
+    dj = sch.decode(x10, validation='lax', converter=xmlschema.JsonMLConverter)[0]
+    ej = sch.encode(dj, validation='lax', converter=xmlschema.JsonMLConverter, path='{u2}b')[0]
+    tagsj = [x.tag for x in ej.iter()]
+    ctx.extra['replayed:encoder_f10_counterexample'] = {'default': tags, 'jsonml': tagsj}
+    if tags == ['{u2}b', '{u4}w', '{u4}a'] and tagsj == ['{u2}b', '{u4}w']:
+        ctx.known_hit('C17-F10', {'xml': x10, 'mode': 'stacked', 'converter': 'default+jsonml'})
+    elif not (tags == ['{u2}b', '{u4}w', 'a'] and tagsj == tags and not F10_ON):
+        ctx.mismatch('Lean witness encoder_f10_counterexample does not replay', {'xml': x10}, [tags, tagsj], None)
+    # encoder_f8_counterexample (C17-F8)
+    x8 = '<a><b xmlns="u1"/><b/></a>'
+    dj = sch.decode(x8, validation='lax', converter=xmlschema.JsonMLConverter)[0]
+    L.reset_trace({})
+    try:
+        ej, errs = sch.encode(dj, validation='lax', converter=L.traced(xmlschema.JsonMLConverter), path='a')
+    except Exception as ex:  # noqa
+        ej, errs = None, [ex]
+    init = (L.TRACE['init'] or {}).get('ns')
+    ctx.extra['replayed:encoder_f8_counterexample'] = {'initial_map': init, 'encoded': None if ej is None else [x.tag for x in ej.iter()]}
+    if init == [['', 'u1']]:
+        ctx.known_hit('C17-F8', {'xml': x8, 'mode': 'stacked', 'converter': 'jsonml'})
+    elif init not in ([], None) or ej is None or [x.tag for x in ej.iter()] != ['a', '{u1}b', 'b']:
+        ctx.mismatch('Lean witness encoder_f8_counterexample does not replay', {'xml': x8}, [init, errs and str(errs[0])[:100]], None)
 
 
 def load_local_findings() -> list:
@@ -1167,9 +1240,10 @@ def replay(ctx: Ctx, obj: dict) -> int:
         drv.query([{'op': 'merge', 'variant': 'pinned', 'mode': 'collapsed', 'ns': [], 'xmlns': [], 'root': True}])
     except Exception:  # noqa
         drv = None
-    global ARULE
+    global ARULE, F10_ON
     variant = detect_variant()
     ARULE = detect_attr_rule()
+    F10_ON = detect_f10()
     ctx.known = ctx.known + load_local_findings()
     if 'xml' in case and 'doc' in case:
         doc = case['doc']
